@@ -251,6 +251,7 @@ def default_qos_budget(ctx: Ctx) -> None:
     writes: list = []
     echo_for: set = set()
     steps = []
+    knobs: list = []
 
     async def main():
         proto = PortProtocol(lambda m: None, disable_qos=False)
@@ -283,6 +284,40 @@ def default_qos_budget(ctx: Ctx) -> None:
             n = sum(1 for f in writes[n0:] if f == str(cmd))
             steps.append((tag, n, want, out))
 
+        # the knobs of the gateway-level entries (Engine.async_send_cmd, Gateway.async_send_cmd) reach the protocol as given: None means the default, 0 means 0
+        from ramses_tx.const import Priority  # noqa: PLC0415
+        from ramses_tx.gateway import Engine  # noqa: PLC0415
+
+        seen = []
+
+        class Capture:
+            async def send_cmd(self, cmd, **kw):
+                seen.append(kw)
+                return None
+
+        entries = [("Engine.async_send_cmd", Engine("/dev/null"))]
+        try:
+            from ramses_rf import Gateway  # noqa: PLC0415
+            entries.append(("Gateway.async_send_cmd", Gateway("/dev/null", config={"disable_discovery": True})))
+        except Exception:  # noqa: BLE001
+            pass
+        for label, eng in entries:
+            eng._protocol = Capture()
+            for mr in (None, 0, 1, 2, 3, 5):
+                for to in (None, 0.1, 5.0, 30.0):
+                    for wfr in (None, False, True):
+                        for pr in (Priority.LOW, Priority.HIGH):
+                            seen.clear()
+                            kw = {k: v for k, v in (("max_retries", mr), ("timeout", to)) if v is not None or k == "max_retries"}
+                            try:
+                                await eng.async_send_cmd(Command.get_zone_temp(qos.CTL, "01"), priority=pr, wait_for_reply=wfr, **kw)
+                            except Exception as err:  # noqa: BLE001
+                                knobs.append((label, mr, to, wfr, int(pr), "raised " + type(err).__name__, None))
+                                continue
+                            q = seen[0].get("qos") if seen else None
+                            ref = QosParams(max_retries=mr, timeout=to, wait_for_reply=wfr)
+                            got = None if q is None else (q.max_retries, q.timeout, q.wait_for_reply, int(seen[0].get("priority", Priority.DEFAULT)))
+                            knobs.append((label, mr, to, wfr, int(pr), got, (ref.max_retries, ref.timeout, ref.wait_for_reply, int(pr))))
         await unanswered("before", "01")
         echo_for.update(("7FFF", " 30C9 003 0007D0"))
         try:      # a command with a foreign source address: the library sends its impersonation alert (7FFF) first
@@ -300,6 +335,13 @@ def default_qos_budget(ctx: Ctx) -> None:
         asyncio.set_event_loop(None)
         loop.close()
     ctx.case(("default-qos-budget",), True, "default-qos:before-and-after-an-impersonated-send")
+    ctx.case(("gateway-entry-knobs", len(knobs)), bool(knobs), "gateway-entry:knobs-handed-to-the-protocol")
+    for label, mr, to, wfr, pr, got, want_k in knobs:
+        if got != want_k:
+            ctx.violation(f"gateway-entry-changes-the-knobs:{label}", f"{label}(max_retries={mr}, timeout={to}, wait_for_reply={wfr}, priority={pr}) hands the protocol {got}, "
+                          f"a QosParams built from the same arguments holds {want_k}", {"entry": label, "max_retries": mr, "timeout": to, "wait_for_reply": wfr, "priority": pr,
+                                                                                       "handed_on": str(got), "expected": str(want_k)}, "input")
+            break
     for tag, n, want, out in steps:
         if tag != "impersonated" and n != want:
             ctx.violation("default-qos-budget-changes:" + tag, f"an unanswered command sent with the library's default QoS was transmitted {n} times ({tag}), not 1 + min(max_retries, 3) = {want}",
